@@ -19,10 +19,19 @@ def h2p_scen(n, max_rej, prefix=None, deadline_s=None, tag=''):
     stream = [ex.new_input('r%d' % i, 'u8') for i in range(2 * nchunks)]
     msg = [ex.new_input('m%d' % i, 'u8') for i in range(3)]
     tvals = [z3.Concat(z3.BitVecVal(0, 16), stream[2 * i].t, stream[2 * i + 1].t) for i in range(nchunks)]   # 32-bit, big endian
+    # implementations that squeeze whole blocks ahead: the stream continues with `extra` further chunks, all of them accepted ones (the
+    # rejection bound below speaks about the whole stream); reading beyond that is cut
+    extra = 208
+    for i in range(2 * nchunks, 2 * (nchunks + extra)):
+        stream.append(ex.new_input('r%d' % i, 'u8'))
+    for i in range(nchunks, nchunks + extra):
+        tvals.append(z3.Concat(z3.BitVecVal(0, 16), stream[2 * i].t, stream[2 * i + 1].t))
+        ex.assume(z3.ULT(tvals[i], z3.BitVecVal(KQ, 32)))
+    HARD = len(stream)
     for i, pb in enumerate(prefix or []):
         a = z3.ULT(tvals[i], z3.BitVecVal(KQ, 32))
         ex.assume(a if pb else z3.Not(a))
-    rej = [z3.If(z3.UGE(t, z3.BitVecVal(KQ, 32)), z3.BitVecVal(1, 8), z3.BitVecVal(0, 8)) for t in tvals]
+    rej = [z3.If(z3.UGE(t, z3.BitVecVal(KQ, 32)), z3.BitVecVal(1, 8), z3.BitVecVal(0, 8)) for t in tvals[:nchunks]]
     ex.assume(z3.ULE(sum(rej[1:], rej[0]), z3.BitVecVal(max_rej, 8)))      # bound: at most max_rej rejected chunks in the whole stream
     log = {'absorbed': [], 'finalized': 0, 'cut': 0}
     out = {'ret': 0, 'bad': [], 'checks': 0, 'samples': []}
@@ -49,9 +58,9 @@ def h2p_scen(n, max_rej, prefix=None, deadline_s=None, tag=''):
         pos, absorbed = r.data
         buf = args[1]
         k = ex.slice_len(st, buf)
-        if pos + k > len(stream):
+        if pos + k > HARD:
             log['cut'] += 1
-            raise PathEnd()            # more rejections than the stated bound: outside the claim
+            raise PathEnd()            # far more stream than any reading of Algorithm 3 needs under the stated rejection bound: outside the claim
         base = buf.rng[0] if buf.rng else 0
         cur = ex.load(st, buf.loc)
         e = list(cur.e)
@@ -83,16 +92,22 @@ def h2p_scen(n, max_rej, prefix=None, deadline_s=None, tag=''):
                 if rounds > 40:
                     raise Unsupported('too many accept patterns on one path')
                 ex.nq += 1
-                if ex.solver.check() != z3.sat:
+                rr = ex.solver.check()
+                if rr == z3.unknown:
+                    raise Unsupported('solver unknown while enumerating accept patterns')
+                if rr != z3.sat:
                     break
                 m = ex.solver.model()
                 pat = [z3.is_true(m.eval(a, model_completion=True)) for a in acc]
-                fix = z3.And(*[a if p else z3.Not(a) for a, p in zip(acc, pat)]) if acc else z3.BoolVal(True)
                 idx = [i for i, p in enumerate(pat) if p]
+                # only the chunks up to the n-th accepted one matter to Algorithm 3: whatever an implementation squeezed ahead of
+                # that is not observable (the property speaks about the returned point), so the pattern is fixed on that prefix only
+                upto = (idx[n - 1] + 1) if (n > 0 and len(idx) >= n) else (0 if n == 0 else len(acc))
+                fix = z3.And(*[a if p else z3.Not(a) for a, p in zip(acc[:upto], pat[:upto])]) if upto else z3.BoolVal(True)
                 out['checks'] += 1
                 viol = []
-                # Algorithm 3 on this pattern: the first n accepted chunks, stop right after the n-th
-                if len(idx) < n or (n > 0 and idx[n - 1] != used - 1) or len(coeffs) != n or (n == 0 and used != 0):
+                # Algorithm 3 on this pattern: the first n accepted chunks, reduced
+                if len(idx) < n or len(coeffs) != n:
                     viol.append(z3.BoolVal(True))
                 else:
                     for k in range(n):
@@ -107,6 +122,8 @@ def h2p_scen(n, max_rej, prefix=None, deadline_s=None, tag=''):
                     out['bad'].append({'kind': 'hash_to_point differs from Algorithm 3 on this stream', 'n': n, 'stream': sv,
                                        'got': [ex.eval_int(mm, c.f[0]) for c in coeffs], 'want': (spec.hash_to_point_from_stream(bytes(sv), n) or [None])[0]})
                     break
+                if z3.is_true(fix):
+                    break
                 ex.assume(z3.Not(fix))
         finally:
             ex.pop()
@@ -117,7 +134,7 @@ def h2p_scen(n, max_rej, prefix=None, deadline_s=None, tag=''):
     fn = P.by_key['hash_to_point']
     st = ex.start(fn, [temp_ref(Seq('arr', msg), (0, len(msg))), mkint(n, 'usize')])
     ex.explore(st)
-    panics = [{'msg': p['msg'], 'site': p['site'], 'stream': [p['inputs'].get('r%d' % i, 0) for i in range(2 * nchunks)], 'n': n} for p in ex.panics[:3]]
+    panics = [{'msg': p['msg'], 'site': p['site'], 'stream': [p['inputs'].get('r%d' % i, 0) for i in range(len(stream))], 'n': n} for p in ex.panics[:3]]
     asserts = sum(c[0] for c in ex.assert_sites.values())
     return {'tag': tag or 'hash_to_point n=%d, <=%d rejections%s' % (n, max_rej, (', first chunks accept=%s' % prefix) if prefix else ''), 'n': n, 'max_rej': max_rej, 'paths': ex.paths, 'queries': ex.nq, 'solver_s': ex.solver_s,
             'steps': ex.steps, 'returned': out['ret'], 'cut_beyond_bound': log['cut'], 'bad': out['bad'][:5], 'panics': panics,
